@@ -200,7 +200,9 @@ pub fn pick_size(rng: &mut Rng, cfg: &RunCfg) -> usize {
         18 => rng.range(0, 4200),
         _ => {
             if cfg.big_sizes {
-                *rng.pick(&[4096usize, 4097, 65535, 65536, 65537, 70000, 131072, 140000])
+                // past the thresholds a size-dependent policy could hang on (page, 64 KiB = the largest
+                // remembered original capacity, 1 MiB), still far below the 8 MiB cap
+                *rng.pick(&[4096usize, 4097, 65535, 65536, 65537, 70000, 131072, 140000, 1 << 20, (1 << 20) + 1, 1_200_000, 2 << 20, 2_500_000])
             } else {
                 rng.range(0, 300)
             }
@@ -478,7 +480,21 @@ impl<'a> Gen<'a> {
                 let v = w.slots[&h].view();
                 let spare = v.cap - v.len;
                 let blk = World::block_of(v.ptr);
-                let n = if oob {
+                // a handle alone on its block with a consumed prefix `off` in front of it: the crate can
+                // only grow that block, so len + n in (isize::MAX - off, isize::MAX] cannot be satisfied
+                // either (the grown Vec would exceed isize::MAX); no allocation is attempted
+                let off_band = match (w.sharing(h), blk) {
+                    ((Sharing::Alone, _), Some(b)) if v.ptr > b.user && name == "reserve" => Some(v.ptr - b.user),
+                    _ => None,
+                };
+                let mut band = false;
+                let n = if oob && off_band.is_some() && rng.chance(1, 3) {
+                    let off = off_band.unwrap();
+                    let top = IMAX - v.len; // len + top == isize::MAX
+                    let mid = top - rng.range(0, off - 1);
+                    band = true;
+                    *rng.pick(&[top, top - (off - 1), mid, top - (off - 1) / 2])
+                } else if oob {
                     // len + n must exceed isize::MAX: the only band where the outcome is defined as "panic"
                     let lo = IMAX - v.len + 1;
                     *rng.pick(&[
@@ -510,7 +526,12 @@ impl<'a> Gen<'a> {
                         _ => pick_size(rng, cfg),
                     }
                 };
-                o.set("h", h).set("n", n)
+                let o = o.set("h", h).set("n", n);
+                if band {
+                    o.set("band", true)
+                } else {
+                    o
+                }
             }
             "extend_from_slice" => {
                 let h = *rng.pick(ms.get(..).filter(|v| !v.is_empty())?);
@@ -1262,6 +1283,7 @@ pub fn exec(w: &mut World, op: &J) -> StepOut {
         }
         "try_into_mut" | "b_into_mut" => {
             need!(is_b);
+            let (sh0, blk0) = w.sharing(h);
             let s = w.slots.remove(&h).unwrap();
             let v0 = s.view();
             let (model, origin) = (s.model, s.origin);
@@ -1286,6 +1308,13 @@ pub fn exec(w: &mut World, op: &J) -> StepOut {
                         }
                         if byte_buffer_allocs(&ev) > 0 {
                             w.v(&["C07", "C08"], "allocated:into_mut", format!("h{} -> BytesMut of a unique buffer allocated a byte buffer", h));
+                        }
+                        // "returns the same memory": the sole owner's allocation goes to the BytesMut (which
+                        // can take all of it back later), it is not released by the conversion
+                        if let (Sharing::Alone, Some(b0)) = (sh0, blk0) {
+                            if b0.align == 1 && !alloc::lookup(b0.user).map(|b| b.live && b.id == b0.id).unwrap_or(false) {
+                                w.v(&["C08"], "into_mut-released-unique-buffer", format!("h{} (unique, {} bytes at +{} of block#{} of size {}) -> BytesMut: the allocation was released instead of handed over", h, v0.len, v0.ptr - b0.user, b0.id, b0.size));
+                            }
                         }
                     } else {
                         w.probes.hit("into_mut_copy");
@@ -1511,15 +1540,23 @@ pub fn exec(w: &mut World, op: &J) -> StepOut {
             let v0 = s.view();
             let spare = v0.cap - v0.len;
             let unrepresentable = v0.len.checked_add(n).map(|t| t > IMAX).unwrap_or(true);
-            if !unrepresentable && n > spare && v0.len.saturating_add(n) > BIG {
+            // alone on its block behind a consumed prefix `off`: growing that block to off + len + n
+            // bytes is not representable either, and nothing is allocated before that is noticed
+            // (decided when the operation was generated and carried in the op: the address-based
+            // classification may be ambiguous under another placement, the ownership is not)
+            let beyond_block = !unrepresentable && op.boolean("band") && n > spare;
+            if !unrepresentable && !beyond_block && n > spare && v0.len.saturating_add(n) > BIG {
                 w.slots.insert(h, s);
                 return skip;
+            }
+            if beyond_block {
+                w.probes.hit("reserve_beyond_block_band");
             }
             let sole_empty = v0.len == 0 && sh == Sharing::Alone && blk.map(|b| b.align == 1 && n <= b.size).unwrap_or(false);
             let is_reserve = name == "reserve";
             let exp = if n <= spare {
                 Exp::Ok
-            } else if unrepresentable {
+            } else if unrepresentable || beyond_block {
                 if is_reserve {
                     Exp::Panic
                 } else {
